@@ -3,6 +3,7 @@
 package compat
 
 import (
+	"context"
 	"io"
 
 	"storj.io/drpc"
@@ -162,6 +163,7 @@ func VerifH_SplitEmitOldCompat() {
 	var stream []byte
 	var want, wantAll []pktOut
 	var wantCtl []bool
+	multiCtl, multiData := false, false // covers are raised at the end: a witness must satisfy every assumption
 	mid := uint64(0)
 	for i := 0; i < npkts; i++ {
 		mid++
@@ -181,9 +183,9 @@ func VerifH_SplitEmitOldCompat() {
 		vrt.Assert(err == nil, "SplitN returns nil")
 		if frames > 1 {
 			if control {
-				vrt.Cover("multi-frame-control")
+				multiCtl = true
 			} else {
-				vrt.Cover("multi-frame-data")
+				multiData = true
 			}
 		}
 		out := pktOut{kind, 1, mid, append([]byte(nil), data...)}
@@ -232,5 +234,68 @@ func VerifH_SplitEmitOldCompat() {
 			break
 		}
 	}
+	if multiCtl {
+		vrt.Cover("multi-frame-control")
+	}
+	if multiData {
+		vrt.Cover("multi-frame-data")
+	}
 	vrt.Cover("split-emit-end")
+}
+
+// VerifH_OldSplitEmitNewReads: the converse direction - packets written by the released
+// writer path (v0.0.17 SplitN with a symbolic split size, v0.0.17 AppendFrame) are decoded
+// by the current reader to exactly those packets, payloads whole, none marked control.
+func VerifH_OldSplitEmitNewReads() {
+	npkts := vrt.Param("pkts", 2)
+	maxdata := vrt.Param("maxdata", 3)
+	var stream []byte
+	var want []pktOut
+	multi := false
+	mid := uint64(0)
+	for i := 0; i < npkts; i++ {
+		mid++
+		kind := vrt.U8("kind")
+		vrt.Assume(kind >= 1 && kind <= 7)
+		data := vrt.Bytes("d", maxdata)
+		n := vrt.Int("n")
+		vrt.Assume(n >= -1 && n <= 3 && n != 0)
+		pkt := oldwire.Packet{Data: data, ID: oldwire.ID{Stream: 1, Message: mid}, Kind: oldwire.Kind(kind)}
+		frames := 0
+		err := oldwire.SplitN(context.Background(), pkt, n, func(_ context.Context, fr oldwire.Frame) error {
+			stream = oldwire.AppendFrame(stream, fr)
+			frames++
+			return nil
+		})
+		vrt.Assert(err == nil, "old SplitN returns nil")
+		if frames > 1 {
+			multi = true
+		}
+		want = append(want, pktOut{kind, 1, mid, append([]byte(nil), data...)})
+	}
+	nr := newwire.NewReader(&byteReader{data: stream})
+	for i := 0; ; i++ {
+		p, err := nr.ReadPacket()
+		if err != nil {
+			vrt.Assert(err == io.EOF, "the current reader accepts what the old writer emits")
+			vrt.Assert(i == len(want), "the current reader returns every packet the old writer sent")
+			break
+		}
+		vrt.Assert(i < len(want), "the current reader returns no extra packet")
+		if i >= len(want) {
+			break
+		}
+		w := want[i]
+		vrt.Assert(!p.Control, "old packets are not control packets")
+		vrt.Assert(uint8(p.Kind) == w.kind && p.ID.Stream == w.sid && p.ID.Message == w.mid && len(p.Data) == len(w.data), "same packet header and payload length")
+		for j := range p.Data {
+			if j < len(w.data) {
+				vrt.Assert(p.Data[j] == w.data[j], "same packet payload")
+			}
+		}
+	}
+	if multi {
+		vrt.Cover("old-multi-frame")
+	}
+	vrt.Cover("old-split-emit-end")
 }
